@@ -28,6 +28,7 @@ bounds rows, total_bounds with and without the inert rows, and the R-tree answer
 with NaN rows against the renumbered answers of the tree without them.
 """
 import math
+import time
 import traceback
 
 import numpy as np
@@ -51,13 +52,14 @@ TRUSTED = ['pandas / dask frame plumbing (merge, from_pandas, set_index) is exer
 IMPORTS = 'Model.Num Model.Arrow Model.Bounds Model.Rtree Model.Inert'
 LA_FN = 'c17_la_case'
 LA_TY = 'listarr * listarr'
-LA_RES = 'option (list bool * list bbox * bbox * (bool * bool))'
+LA_RES = 'option (list bool * list bbox * bbox * (bool * bool * bool))'
 FA_FN = 'c17_fa_case'
 FA_TY = 'fixarr * fixarr'
 RT_FN = 'c17_rtree_case'
 RT_TY = 'nat * list (list (option Z)) * list nat * list nat * nat * list (list Z)'
 RT_RES = 'list (list nat * list nat * list nat) * bool'
 
+KNOWN_INF_POLYGON = 'inf-only-polygon-intersects-points'
 BASE_LABEL = 100
 INERT_LABEL = 9000
 
@@ -324,8 +326,12 @@ def fam_inert_shapes(cx):
         if t.kind != 'ring':
             ok, r = cx.guard(f'intersects:{t.kind}', lambda: np.asarray(probe.intersects(s)))
             if ok and r.any():
-                cx.fail(f'inert-shape-true:intersects:{_inert_tag(t, i)}',
-                        'a point intersects an inert shape', row=i)
+                if t.kind in ('polygon', 'multipolygon') and t.cls[i] == 'inf':
+                    cx.fail(KNOWN_INF_POLYGON, 'a point intersects a polygon / multipolygon '
+                            'whose coordinates are all infinite', row=i)
+                else:
+                    cx.fail(f'inert-shape-true:intersects:{_inert_tag(t, i)}',
+                            'a point intersects an inert shape', row=i)
         for box in P['boxes']:
             ok, r = cx.guard(f'scalar-intersects_bounds:{t.kind}', lambda: s.intersects_bounds(tuple(box)))
             if ok and bool(r):
@@ -493,8 +499,29 @@ def _pairs(df, how):
                   key=lambda p: (p[0] is None, p[0] or 0, p[1] is None, p[1] or 0))
 
 
-def _check_join(cx, how, got, exp, l_inert, r_inert, where, **extra):
+def _inf_polygons(rt, which):
+    """labels of the inf-only polygon / multipolygon rows of the right frame"""
+    if which != 'full' or rt.kind not in ('polygon', 'multipolygon'):
+        return set()
+    return set(l for l, c in zip(rt.full_labels, rt.cls) if c == 'inf')
+
+
+def _check_join(cx, how, got, exp, l_inert, r_inert, where, r_infpoly=(), **extra):
     """got = pairs with inert rows present, exp = pairs of the base frames"""
+    r_infpoly = set(r_infpoly)
+    if any(p[1] in r_infpoly and p[0] is not None for p in got):
+        # recorded finding: every point "intersects" an all-infinite polygon; reported under its
+        # one signature, then those right rows are left out and everything else is still checked
+        cx.fail(KNOWN_INF_POLYGON, 'sjoin matches left points with a right polygon / multipolygon '
+                'whose coordinates are all infinite', how=how, **extra)
+        before = got
+        got = [p for p in got if p[1] not in r_infpoly]
+        if how == 'left':
+            # a left row whose only partners were such rows would have been kept unmatched
+            left_now = set(p[0] for p in got)
+            got = got + [(l, None) for l in sorted(set(p[0] for p in before) - left_now)]
+            got.sort(key=lambda p: (p[0] is None, p[0] or 0, p[1] is None, p[1] or 0))
+        r_inert = set(r_inert) - r_infpoly
     matched = [p for p in got if (p[0] in l_inert and p[1] is not None)
                or (p[1] in r_inert and p[0] is not None)]
     if matched:
@@ -541,7 +568,7 @@ def fam_sjoin(cx):
             cx.rep.count('sjoin:matches')
         for where, lw, rw in (('both', 'full', 'full'), ('left', 'full', 'base'),
                               ('right', 'base', 'full')):
-            if where != 'both' and where not in P['sjoin_sides']:
+            if where != 'both' and (where not in P['sjoin_sides'] or how != P.get('sjoin_how', how)):
                 continue
             ok, got = cx.guard(f'sjoin:{how}', lambda: sjoin(lt.frame(lw, 'a'), rt.frame(rw, 'b'), how=how))
             if not ok:
@@ -549,7 +576,7 @@ def fam_sjoin(cx):
             if not _check_join(cx, how, _pairs(got, how), exp,
                                l_inert if lw == 'full' else set(),
                                r_inert if rw == 'full' else set(), where,
-                               right_kind=rt.kind):
+                               r_infpoly=_inf_polygons(rt, rw), right_kind=rt.kind):
                 return
 
 
@@ -594,7 +621,7 @@ def fam_dask(cx):
                                     np.asarray(t.base_arr.bounds, dtype='float64')):
             cx.fail(f'dask-bounds-changed:{t.kind}', 'Dask bounds rows of the other elements change')
         # cx and cx_partitions
-        for box, opn in zip(P['boxes'][:4], P['open'][:4]):
+        for box, opn in zip(P['boxes'][:3], P['open'][:3]):
             key = _cx_key(box, opn)
             ok, fr = cx.guard('dask-cx', lambda: fd.cx[key[0], key[1]].compute())
             if not ok:
@@ -635,7 +662,7 @@ def fam_dask(cx):
         if t.kind == 'point' and 'other' in P:
             rt = Trial.from_meta(P['other'])
             r_inert = set(l for l, m in zip(rt.full_labels, rt.mask) if m)
-            for how in ('inner', 'left'):
+            for how in P.get('dask_hows', ('inner', 'left')):
                 ok, base = cx.guard('sjoin-base', lambda: sjoin(t.frame('base', 'a'), rt.frame('base', 'b'), how=how))
                 if not ok:
                     return
@@ -647,13 +674,24 @@ def fam_dask(cx):
                 if not ok:
                     return
                 if not _check_join(cx, how, _pairs(got, how), exp, inert_labels, r_inert, 'dask',
-                                   right_kind=rt.kind, chunk=chunk):
+                                   r_infpoly=_inf_polygons(rt, 'full'), right_kind=rt.kind,
+                                   chunk=chunk):
                     return
-        # pack_partitions: every row kept, the other rows' Hilbert keys unchanged
+        # pack_partitions: every row kept, the other rows' Hilbert keys unchanged.  A call that
+        # raises (dask's repartition assertion when many rows share one key: C09's recorded
+        # findings) claims nothing: skipped and counted, in either run.
         if P.get('pack'):
             npart, p = P['pack']
-            ok, fpk = cx.guard('dask-pack_partitions', lambda: fd.pack_partitions(npartitions=npart, p=p).compute())
-            if not ok:
+
+            def pack(d):
+                try:
+                    return d.pack_partitions(npartitions=npart, p=p).compute()
+                except Exception:  # noqa: BLE001
+                    return None
+            fpk = pack(fd)
+            bpk = pack(bd) if bd is not None else None
+            if fpk is None or (bd is not None and bpk is None):
+                cx.rep.count('pack_raises_ties')
                 return
             got = sorted((int(l), int(k)) for k, l in zip(fpk.index, fpk['label']))
             if sorted(l for l, _ in got) != sorted(t.full_labels):
@@ -661,16 +699,14 @@ def fam_dask(cx):
                         'when inert rows are present', chunk=chunk, npartitions=npart,
                         labels=sorted(l for l, _ in got))
                 return
-            if bd is not None:
-                ok, bpk = cx.guard('dask-pack_partitions', lambda: bd.pack_partitions(npartitions=npart, p=p).compute())
-                if not ok:
-                    return
+            if bpk is not None:
                 exp = sorted((int(l), int(k)) for k, l in zip(bpk.index, bpk['label']))
                 rest = [x for x in got if x[0] not in inert_labels]
                 if rest != exp:
                     cx.fail(f'pack-keys-changed:{t.kind}',
                             'pack_partitions gives other Hilbert keys to the remaining rows when inert '
-                            'rows are inserted', chunk=chunk, npartitions=npart, p=p, base=exp, full=rest)
+                            'rows are inserted (total_bounds is unchanged)', chunk=chunk,
+                            npartitions=npart, p=p, base=exp, full=rest)
                     return
                 cx.rep.count('dask:pack')
 
@@ -708,7 +744,9 @@ def gen_params(rng, t, families):
          'hilbert_tb': [-8.0, -8.0, 8.0, 8.0] if rng.random() < 0.7 else [0.0, 0.0, 0.0, 5.0],
          'cx_pages': [ps for ps in (1, 2, 3, t.block, 512) if rng.random() < 0.5] or [2],
          'probe_points': [[0.0, 0.0], [1.0, 1.0]] + [U.rand_pts(rng, 1, exact) for _ in range(3)],
-         'sjoin_sides': rng.choice([['left'], ['right'], []])}
+         'sjoin_sides': rng.choice([['left'], ['right'], []]),
+         'sjoin_how': rng.choice(['inner', 'left', 'right']),
+         'dask_hows': [rng.choice(['inner', 'left'])]}
     if 'point_rows' in families and t.kind == 'point':
         shapes = []
         for sk in ('point', 'multipoint', 'line', 'multiline', 'polygon', 'multipolygon'):
@@ -741,7 +779,7 @@ def plan(rep, tier):
     """(kind, pattern, exact, families) of every trial"""
     rng = rep.rng
     out = []
-    reps = 2 if tier == 'quick' else 40
+    reps = 2 if tier == 'quick' else 24
     for kind in G.KINDS:
         for pattern in U.PATTERNS:
             for r in range(reps):
@@ -750,8 +788,9 @@ def plan(rep, tier):
                 if kind == 'point':
                     fams.append('point_rows')
                 fams.append('cx')
-                fams.append('sjoin')
-                if pattern in ('partition', 'all', 'first', 'page') or r == 0:
+                if tier != 'quick' or r == 0 or pattern in ('first', 'all', 'interleaved'):
+                    fams.append('sjoin')
+                if tier != 'quick' or r == 0 or pattern in ('partition', 'all'):
                     fams.append('dask')
                 out.append((kind, pattern, exact, fams))
     return out
@@ -779,7 +818,7 @@ def coq_cases(rep, trials):
             tbb = tuple(C.fnum(v) for v in t.base_arr.total_bounds)
             res = C.Some(([bool(m) for m in t.mask],
                           [tuple(C.fnum(v) for v in row) for row in fb.tolist()], tbf,
-                          (tbf == tbb, True)))
+                          (tbf == tbb, True, True)))
             if t.kind == 'point':
                 fa.append((C.export_fixarr(t.full_arr), C.export_fixarr(t.base_arr)))
                 fa_res.append(res)
@@ -865,6 +904,8 @@ def run(rep):
         numba.set_num_threads(min(2, numba.config.NUMBA_NUM_THREADS))
     except Exception:  # noqa: BLE001
         pass
+    witness(rep)
+    cpu = {}
     for kind, pattern, exact, fams in plan(rep, tier):
         with_inf = rep.rng.random() < 0.3
         try:
@@ -885,15 +926,39 @@ def run(rep):
         rep.sample({'kind': kind, 'pattern': pattern, 'full': t.full, 'mask': t.mask}, cap=5)
         for fam in fams:
             cx = Ctx(rep, t, fam, P)
+            t0 = time.process_time()
             try:
                 FAMILIES[fam](cx)
             except Exception as e:  # noqa: BLE001  (a crash of the harness itself)
                 rep.violation(f'harness-crash:{fam}:{type(e).__name__}',
                               f'family {fam} crashed: {traceback.format_exc()[-800:]}',
                               {**t.meta(), 'family': fam, 'params': P})
+            cpu[fam] = cpu.get(fam, 0.0) + time.process_time() - t0
             rep.evaluations += 1
             rep.count(f'family:{fam}')
+    t0 = time.time()
     coq_cases(rep, trials)
+    rep.extra['family_cpu_s'] = {k: round(v, 1) for k, v in cpu.items()}
+    rep.extra['coq_wall_s'] = round(time.time() - t0, 1)
+
+
+def witness(rep):
+    """always-run corpus: the recorded finding (all-infinite polygon vs points), directly and
+    through sjoin, so that its KNOWN-FINDING line is printed by every run"""
+    inf = float('inf')
+    sq = [[-1.0, -1.0, 2.0, -1.0, 2.0, 2.0, -1.0, 2.0, -1.0, -1.0]]
+    ip = [[-inf, -inf, inf, -inf, inf, inf, -inf, -inf]]
+    t = Trial('polygon', [sq], [sq, ip], [False, True], True, 'last', 2)
+    pts = Trial('point', [[0.0, 0.0], [1.0, 1.0], [5.0, 4.0]], [[0.0, 0.0], None, [1.0, 1.0], [5.0, 4.0]],
+                [False, True, False, False], True, 'random', 2)
+    P = {'boxes': [[-1e7, -1e7, 1e7, 1e7], [0.0, 0.0, 1.0, 1.0]], 'open': [[], []], 'inds': [0],
+         'p': 5, 'hilbert_tb': [-8.0, -8.0, 8.0, 8.0], 'cx_pages': [2],
+         'probe_points': [[0.0, 0.0], [1.0, 1.0], [5.0, 4.0]], 'sjoin_sides': ['right'],
+         'other': pts.meta(), 'pack': None}
+    for fam in ('inert_shapes', 'sjoin'):
+        FAMILIES[fam](Ctx(rep, t, fam, P))
+        rep.evaluations += 1
+    rep.count('witness:inf-polygon')
 
 
 def replay(rep, rp):
